@@ -43,12 +43,45 @@ def items(toks):
     for l, it in toks:
         if it[0] == "stmt":
             t = "IStmt %s %s %s" % (qname(it[1]), it[2], munits(it[3]))
+        elif it[0] == "stmta":
+            t = "IStmtA %s %s" % (qname(it[1]), it[2])
         elif it[0] == "name":
             t = "IName %s" % qname(it[1])
         else:
             t = "IChar %d" % ord(it[1])
         out.append("(%s, %s)" % (l, t))
     return "[" + ";\n   ".join(out) + "]"
+
+
+def ident(sx):
+    return "(mkId %d %s)" % (ord(sx[0]), nl(cps(sx[1:])))
+
+def value(v):
+    """v: ('d', '123') | ('i', 'name') | ('s', 'text')"""
+    if v[0] == "d":
+        return "VDigits %d %s" % (ord(v[1][0]), nl(cps(v[1][1:])))
+    if v[0] == "i":
+        return "VIdent %s" % ident(v[1])
+    return "VStr %s" % munits(v[1])
+
+def kv(key, l1=None, val=None, comma=False):
+    """val: None | (lay_after_eq, value, lay_after_value)"""
+    l1 = l1 or lay()
+    if val is None:
+        vs = "None"
+    else:
+        vs = "(Some (%s, %s, %s))" % (val[0], value(val[1]), val[2])
+    return "(mkKv %s %s %s %s)" % (ident(key), l1, vs, "true" if comma else "false")
+
+def args(l0, targ, kvs, msg):
+    """targ: None | (l1, text, l2, lay_after_comma); kvs: None | (k1, [(lead, k)...], lsemi, lafter)"""
+    ts = "None" if targ is None else "(Some (mkTarg %s %s %s, %s))" % (targ[0], munits(targ[1]), targ[2], targ[3])
+    if kvs is None:
+        ks = "None"
+    else:
+        more = "[" + ";".join("(%s, %s)" % (ld, k) for ld, k in kvs[1]) + "]"
+        ks = "(Some (%s, %s, %s, %s))" % (kvs[0], more, kvs[2], kvs[3])
+    return "(mkArgs %s %s %s %s)" % (l0, ts, ks, munits(msg))
 
 if __name__ == "__main__":
     E = lay()
@@ -65,5 +98,30 @@ if __name__ == "__main__":
         (lay("\n    "), ("stmt", "println", E, "x")), (E, ("char", ")")), (E, ("char", ";")),
         (lay("\n"), ("char", "}")),
     ]
-    print("Definition ex_items : list (lay * item) :=\n  %s." % items(toks))
-    print("Definition ex_fin : lay := %s." % lay("\n", [("//", " info!(\"not code\")", "")]))
+    if len(sys.argv) > 1 and sys.argv[1] == "kv":
+        S = lay(" ")
+        nlnl = lay("\n    ")
+        toks = [
+            (E, ("name", "fn")), (S, ("name", "f")), (E, ("char", "(")), (E, ("char", ")")), (S, ("char", "{")),
+            # info!(ref = 12, user = "bob"; "hello");
+            (nlnl, ("stmta", "info", args(E, None,
+                (kv("ref", S, (S, ("d", "12"), E), True), [(S, kv("user", S, (S, ("s", "bob"), E), False))], E, S), "hello"))),
+            (E, ("char", ")")), (E, ("char", ";")),
+            # warn!(target: "net", attempts = 3 ; "retry");
+            (nlnl, ("stmta", "warn", args(E, (S, "net", E, S), (kv("attempts", S, (S, ("d", "3"), S), False), [], E, S), "retry"))),
+            (E, ("char", ")")), (E, ("char", ";")),
+            # error!("boom");
+            (nlnl, ("stmt", "error", E, "boom")), (E, ("char", ")")), (E, ("char", ";")),
+            # debug!(target: "x", "plain");
+            (nlnl, ("stmta", "debug", args(E, (S, "x", E, S), None, "plain"))), (E, ("char", ")")), (E, ("char", ";")),
+            # info!(a, ref = 7 /* c */; "m");
+            (nlnl, ("stmta", "info", args(E, None,
+                (kv("a", E, None, True), [(S, kv("ref", S, (S, ("d", "7"), lay(" ", [("/*", " c ", "")])), False))], E, S), "m"))),
+            (E, ("char", ")")), (E, ("char", ";")),
+            (lay("\n"), ("char", "}")),
+        ]
+        print("Definition kv_items : list (lay * item) :=\n  %s." % items(toks))
+        print("Definition kv_fin : lay := %s." % lay("\n"))
+    else:
+        print("Definition ex_items : list (lay * item) :=\n  %s." % items(toks))
+        print("Definition ex_fin : lay := %s." % lay("\n", [("//", " info!(\"not code\")", "")]))
